@@ -229,6 +229,8 @@ Record trfacts := mkTr {
   tr_tid_counter : bool;        (* int nextTid = 0; printed as "tid"; ++nextTid per thread             *)
   tr_registry : regk;           (* getThreadTraceList                                                  *)
   tr_reg_lock_first : bool;     (* its first statement takes threadTraceMutex (lock_guard)             *)
+  tr_save_readonly : bool;      (* saveLog: first statement lock_guard on threadTraceMutex; threadTrace appears only as the range of
+                                   `for (const auto &trace : threadTrace)`: the map is neither moved, swapped, cleared nor assigned *)
   tr_strcache : strk;           (* getCachedString                                                     *)
   tr_tel_fields : bool;         (* ThreadEventList's data members are exactly events, threadName, stringCache: no other state *)
   tr_names_via_cache : bool;    (* every name / category stored in an event went through getCachedString *)
@@ -245,7 +247,7 @@ Definition regk_eqb a b := match a, b with RegFindOrCreate, RegFindOrCreate | Re
 (* the facts Model.v was written from *)
 Definition model_tr : trfacts :=
   mkTr 8192 CGe true 8192 true true true 4 4 0 SeekIfPastOne true PerThread true true true 100 true
-       RegFindOrCreate true StrFindOrInsert true true true.
+       RegFindOrCreate true true StrFindOrInsert true true true.
 
 Definition tr_eqb (a b : trfacts) : bool :=
   N.eqb (tr_chunk a) (tr_chunk b) && cmpop_eqb (tr_cmp a) (tr_cmp b) && Bool.eqb (tr_empty_or a) (tr_empty_or b)
@@ -258,7 +260,7 @@ Definition tr_eqb (a b : trfacts) : bool :=
   && Bool.eqb (tr_stray_end_break a) (tr_stray_end_break b) && Bool.eqb (tr_end_top_pop a) (tr_end_top_pop b)
   && N.eqb (tr_long_threshold a) (tr_long_threshold b) && Bool.eqb (tr_tid_counter a) (tr_tid_counter b)
   && regk_eqb (tr_registry a) (tr_registry b) && Bool.eqb (tr_reg_lock_first a) (tr_reg_lock_first b)
-  && strk_eqb (tr_strcache a) (tr_strcache b) && Bool.eqb (tr_tel_fields a) (tr_tel_fields b)
+  && Bool.eqb (tr_save_readonly a) (tr_save_readonly b) && strk_eqb (tr_strcache a) (tr_strcache b) && Bool.eqb (tr_tel_fields a) (tr_tel_fields b)
   && Bool.eqb (tr_names_via_cache a) (tr_names_via_cache b)
   && Bool.eqb (tr_tls_cache a) (tr_tls_cache b).
 
@@ -304,6 +306,11 @@ Definition sc_lookup_of (f : trfacts) (c : scache) (p : N) (text : str) : option
   | StrOther => None
   end.
 
+(* the recorder after a saveLog call, as the facts describe it *)
+Definition save_state_of (f : trfacts) (r : reg) : reg := if tr_save_readonly f then r else [].
+Definition hist_step_of (f : trfacts) (r : reg) (x : hop) : reg :=
+  match x with HRec o => reg_step r o | HSave => save_state_of f r end.
+
 Definition reg_step_of (f : trfacts) (r : reg) (o : rop) : reg :=
   match o with
   | RAttach id => reg_attach_of f r id
@@ -338,7 +345,7 @@ Proof. reflexivity. Qed.
 (* why the find-or-create shape matters: with an unconditional store a thread that receives the id
    of a finished thread makes the recorder forget the finished thread's events *)
 Lemma store_always_loses :
-  let f := mkTr 8192 CGe true 8192 true true true 4 4 0 SeekIfPastOne true PerThread true true true 100 true RegStoreAlways true StrFindOrInsert true true true in
+  let f := mkTr 8192 CGe true 8192 true true true 4 4 0 SeekIfPastOne true PerThread true true true 100 true RegStoreAlways true true StrFindOrInsert true true true in
   let e1 := mkEv KMarker [97] None 0 1 [] in
   let e2 := mkEv KMarker [98] None 0 2 [] in
   let ops := [RAttach 7; RRec 7 e1; RAttach 7; RRec 7 e2] in
@@ -353,7 +360,8 @@ Lemma tr_eqb_fields a b :
   tr_eqb a b = true ->
   tr_chunk a = tr_chunk b /\ tr_cmp a = tr_cmp b /\ tr_empty_or a = tr_empty_or b /\ tr_reserve a = tr_reserve b /\
   tr_seek a = tr_seek b /\ tr_stack_scope a = tr_stack_scope b /\ tr_long_threshold a = tr_long_threshold b /\
-  tr_registry a = tr_registry b /\ tr_strcache a = tr_strcache b /\ tr_tel_fields a = tr_tel_fields b.
+  tr_registry a = tr_registry b /\ tr_strcache a = tr_strcache b /\ tr_tel_fields a = tr_tel_fields b /\
+  tr_save_readonly a = tr_save_readonly b.
 Proof.
   unfold tr_eqb. intro H.
   repeat match goal with H : _ && _ = true |- _ => apply andb_true_iff in H; destruct H end.
@@ -377,10 +385,11 @@ Lemma tr_match_sound g :
   (forall b e, is_long_of g b e = is_long b e) /\
   tr_chunk g = chunk_size /\ tr_reserve g = chunk_size /\
   (forall r id, reg_attach_of g r id = reg_attach r id) /\
-  (forall c p text, sc_lookup_of g c p text = Some (sc_lookup c p text)).
+  (forall c p text, sc_lookup_of g c p text = Some (sc_lookup c p text)) /\
+  (forall r x, hist_step_of g r x = hist_step r x).
 Proof.
-  intro H. destruct (tr_eqb_fields _ _ H) as [H1 [H2 [H3 [H4 [H5 [H6 [H7 [H8 [H9 H10]]]]]]]]].
-  split; [|split; [|split; [|split; [|split; [|split; [|split]]]]]].
+  intro H. destruct (tr_eqb_fields _ _ H) as [H1 [H2 [H3 [H4 [H5 [H6 [H7 [H8 [H9 [H10 H11]]]]]]]]]].
+  split; [|split; [|split; [|split; [|split; [|split; [|split; [|split]]]]]]].
   - intro l. rewrite <- model_get_current. unfold get_current_of. rewrite H1, H2, H3. reflexivity.
   - intro s. rewrite <- model_seek. unfold seek_of. rewrite H5. reflexivity.
   - intros pid tid cs. rewrite <- (fun st => model_emit pid tid cs st) || idtac.
@@ -391,4 +400,5 @@ Proof.
   - rewrite H4. reflexivity.
   - intros r id. unfold reg_attach_of. rewrite H8. reflexivity.
   - intros c p text. unfold sc_lookup_of. rewrite H9, H10. reflexivity.
+  - intros r x. unfold hist_step_of, save_state_of. rewrite H11. destruct x; reflexivity.
 Qed.
